@@ -35,25 +35,32 @@ ASSUMPTIONS = [
 
 # loops of the harness / models (names under this check's control) get a generous bound; the global --unwind of a query is the tight bound for the
 # loops of the code under test (every loop with a symbolic exit condition costs its full bound)
-HLOOPS = ['harness.%d:24' % i for i in range(12)] + ['check_string.0:8', 'check_string.1:16', 'draw_prefix.0:8', 'exact_alloc_n.0:24', 'x_strlen.0:48']
+HLOOPS = ['harness.%d:32' % i for i in range(12)] + ['check_string.0:8', 'check_string.1:16', 'draw_prefix.0:8', 'exact_alloc_n.0:32', 'j_alloc.0:8', 'x_strlen.0:48']
+# Sink strings of the multi-append actions get their buffer on the heap (std::string::reserve before the call): with the in-object short-string
+# buffer every byte store at a symbolic offset is a byte-update of the std::string object itself, after which CBMC no longer knows its data pointer
+# (measured: 2 escapes 4.2 M variables / 7 GB without, 0.6 M / 0.8 GB with).  The single-append cases also run on the short-string buffer.
+RESERVE = '-DC17_RESERVE=32'
 
 
 def plan(ctx):
     cpp = os.path.join(vf.VERIF, 'harness', 'c17.cpp')
     h = os.path.join(vf.VERIF, 'harness', 'c17.c')
+    quick = ctx.quick()
+    slack = int(os.environ.get('C17_SLACK', '2'))   # C17_SLACK=0 ./check C17 shows the out-of-bounds pointers of unescape_j (see ASSUMPTIONS)
     qs = []
 
-    def unit(part, extra=None):
-        return ctx.unit('c17_' + part.lower(), cpp=cpp, cxxflags=['-DC17_' + part] + (extra or []))
-
-    def q(name, part, slice_=None, defines=None, **kw):
+    def q(name, part, slice_=None, defines=None, cbmc=None, heap=False, **kw):
+        unit = ctx.unit('c17_' + part.lower() + ('_heap' if heap else ''), cpp=cpp, cxxflags=['-DC17_' + part] + ([RESERVE] if heap else []))
         d = {'C17_' + part: 1}
         d.update(defines or {})
         cd = {'VF_SPLIT': 1, 'V_' + slice_: 1} if slice_ else {}
-        qs.append(vf.Query(name, unit(part), h, defines=d, cbmc_defines=cd, unwindset=HLOOPS, **kw))
+        cd.update(cbmc or {})
+        kw.setdefault('bounds', {})['sink'] = 'std::string with reserve(32) (heap buffer)' if heap else 'std::string in short-string mode'
+        qs.append(vf.Query(name, unit, h, defines=d, cbmc_defines=cd, unwindset=HLOOPS, **kw))
 
-    q('utf8_append_utf32', 'ENC', unwind=6, mem_gb=2,
-      bounds={'code_point': 'all 2^32 values', 'prefix_bytes': '0..3 arbitrary'}, note='utf8_append_utf32 vs Table 3-6 encoder and Table 3-7 decoder')
+    for heap in ((False,) if quick else (False, True)):
+        q('utf8_append_utf32' + ('/heap' if heap else ''), 'ENC', heap=heap, unwind=6, mem_gb=2,
+          bounds={'code_point': 'all 2^32 values', 'prefix_bytes': '0..3 arbitrary'}, note='utf8_append_utf32 vs Table 3-6 encoder and Table 3-7 decoder')
     q('unhex_char', 'HEX', 'chr', unwind=3, mem_gb=1, bounds={'characters': 'all 22 xdigits', 'types': 'unsigned, char, unsigned char, unsigned long'},
       note='unhex_char<I> vs digit value')
     q('unhex_string/8bit', 'HEX', 's8', unwind=4, mem_gb=1, bounds={'digits': '0..2 symbolic', 'types': 'char, unsigned char'}, note='unhex_string<I> vs positional value')
@@ -63,10 +70,22 @@ def plan(ctx):
       note='unescape_c mapping for every permitted character')
     q('unescape_x', 'ACT', 'x', unwind=6, mem_gb=2, bounds={'input': 'any first byte + 0..2 symbolic hex digits', 'prefix_bytes': '0..3'}, note='unescape_x vs positional value')
     q('append_all', 'ACT', 'all', unwind=14, mem_gb=2, bounds={'input': '0..12 arbitrary bytes', 'prefix_bytes': '0..3'}, note='append_all appends the matched bytes')
-    q('unescape_u', 'U', unwind=10, mem_gb=3, bounds={'input': 'any first byte + 0..8 symbolic hex digits (covers \\uXXXX and \\UXXXXXXXX)', 'prefix_bytes': '0..3'},
-      note='unescape_u: encoding or parse_error exactly for non-scalar values')
-    q('unescape_j/action_input', 'J', unwind=6, mem_gb=4, bounds={'escapes': '1..3, 12 symbolic hex digits', 'prefix_bytes': '0..3'},
+    for npre in ((0, 3) if quick else (0, 1, 2, 3)):
+        # the prefix length is a constant per query: stores into the short-string buffer then have constant offsets (see RESERVE above)
+        q('append_all/growth/prefix%d' % npre, 'GROW', cbmc={'C17_NPRE': npre}, unwind=30, mem_gb=2, bounds={'input': '0..24 arbitrary bytes', 'prefix_bytes': npre},
+          note='append_all through std::string reallocation (validates the growth model of lib/models.h against libstdc++)')
+    for heap in ((False,) if quick else (False, True)):
+        q('unescape_u' + ('/heap' if heap else ''), 'U', heap=heap, unwind=10, mem_gb=3,
+          bounds={'input': 'any first byte + 0..8 symbolic hex digits (covers \\uXXXX and \\UXXXXXXXX)', 'prefix_bytes': '0..3'},
+          note='unescape_u: encoding or parse_error exactly for non-scalar values')
+    maxe = 3 if quick else 4
+    jd = {'C17_MAXE': maxe, 'C17_SLACK': slack}
+    jb = {'escapes': '1..%d, %d symbolic hex digits' % (maxe, 4 * maxe), 'prefix_bytes': '0..3', 'bytes_allocated_after_the_match': slack}
+    q('unescape_j/action_input/sso', 'J', defines=jd, cbmc={'C17_NE': 1}, unwind=6, mem_gb=2, bounds=dict(jb, escapes='1, 4 symbolic hex digits'),
+      note='unescape_j on an action_input, one escape, short-string sink')
+    q('unescape_j/action_input', 'J', defines=jd, heap=True, unwind=maxe + 2, mem_gb=4, bounds=dict(jb),
       note='unescape_j on an action_input: surrogate pairs combined, lone surrogates rejected')
-    q('unescape_j/parse', 'JP', unwind=6, mem_gb=4, bounds={'escapes': '1..3, 12 symbolic hex digits', 'prefix_bytes': '0..3', 'grammar': 'seq< one<\\>, list< seq< one<u>, rep<4,xdigit> >, one<\\> >, eof >'},
+    q('unescape_j/parse', 'JP', defines=jd, heap=True, unwind=maxe + 3, mem_gb=4,
+      bounds=dict(jb, grammar='seq< one<\\>, list< seq< one<u>, rep<4,xdigit> >, one<\\> >, eof >'),
       note='unescape_j attached to the JSON unicode rule, run through parse<>()')
     return qs
